@@ -460,7 +460,8 @@ func (tf *transformer) transformAsm(args []string) ([]string, error) {
 						return nil, err
 					}
 					if flagDebugDir != "" {
-						debugArtifacts.GarbledFiles[basename] = content
+						// includeBuf is reused for the next header.
+						debugArtifacts.GarbledFiles[basename] = bytes.Clone(content)
 					}
 					newHeaderPaths[includePath] = newPath
 				}
@@ -498,7 +499,8 @@ func (tf *transformer) transformAsm(args []string) ([]string, error) {
 			newPaths = append(newPaths, path)
 		}
 		if flagDebugDir != "" {
-			debugArtifacts.GarbledFiles[basename] = content
+			// buf is reused for the next assembly file.
+			debugArtifacts.GarbledFiles[basename] = bytes.Clone(content)
 		}
 	}
 	if err := saveDebugArtifactsForPkg(tf.curPkg, debugCacheKindAsm, debugArtifacts); err != nil {
